@@ -361,9 +361,12 @@ FlagBytes(fl, k, rep) ==
   ELSE LET r == RunLen(fl, k) IN
        CASE rep = "none"  -> <<fl[k]>> \o FlagBytes(fl, k + 1, rep)
          [] rep = "zero"  -> <<fl[k] + REPEAT, 0>> \o FlagBytes(fl, k + 1, rep)
-         [] rep = "max"   -> IF r >= 2 THEN <<fl[k] + REPEAT, r - 1>> \o FlagBytes(fl, k + r, rep)
+         \* the repeat count is one byte: a run covers at most 256 (max) / 257 (split) points
+         [] rep = "max"   -> IF r >= 2 THEN LET c == IF r > 256 THEN 256 ELSE r IN
+                                            <<fl[k] + REPEAT, c - 1>> \o FlagBytes(fl, k + c, rep)
                              ELSE <<fl[k]>> \o FlagBytes(fl, k + 1, rep)
-         [] rep = "split" -> IF r >= 3 THEN <<fl[k], fl[k] + REPEAT, r - 2>> \o FlagBytes(fl, k + r, rep)
+         [] rep = "split" -> IF r >= 3 THEN LET c == IF r > 257 THEN 257 ELSE r IN
+                                            <<fl[k], fl[k] + REPEAT, c - 2>> \o FlagBytes(fl, k + c, rep)
                              ELSE <<fl[k]>> \o FlagBytes(fl, k + 1, rep)
 
 Flatten(ss, k) == FoldLeft(LAMBDA acc, q : acc \o q, <<>>, SubSeq(ss, k, Len(ss)))
